@@ -501,6 +501,34 @@ func (bb *TwoDBoundingBox) UnmarshalJSON(data []byte) error {
 // A 2D Point in the CRS indicated elsewhere
 type TwoDPoint [2]float64
 
+func (p *TwoDPoint) UnmarshalJSON(data []byte) error {
+	var raw interface{}
+	err := json.Unmarshal(data, &raw)
+	if err != nil {
+		return err
+	}
+	return p.UnmarshalJSONFromMap(raw)
+}
+
+// UnmarshalJSONFromMap makes sure a point has exactly 2 coordinates (more would panic when put into the array)
+func (p *TwoDPoint) UnmarshalJSONFromMap(data interface{}) error {
+	dataList, ok := data.([]interface{})
+	if !ok {
+		return fmt.Errorf(`TwoDPoint data is not an array but a %T`, data)
+	}
+	if len(dataList) != len(p) {
+		return fmt.Errorf(`TwoDPoint should have %d coordinates, not %d`, len(p), len(dataList))
+	}
+	for i := range dataList {
+		ord, ok := dataList[i].(float64)
+		if !ok {
+			return fmt.Errorf(`TwoDPoint coordinate is not a number but a %T`, dataList[i])
+		}
+		p[i] = ord
+	}
+	return nil
+}
+
 func IsLatLon(crs CRS) (bool, error) {
 	authority := crs.Authority()
 	version := crs.Version()
